@@ -125,7 +125,7 @@ def run(ck):
         for bb, t in fn.calls():
             c = callee_of(t)
             p = c.get("rpath") or ""
-            if "atomic::AtomicUsize" in p and not p.endswith("::load") and not p.endswith("::new"):
+            if ("atomic::AtomicUsize" in p or "atomic::Atomic::<usize>" in p) and not p.endswith("::load") and not p.endswith("::new"):
                 ck.require(bb not in reg, "C10-R3", "%s in %s" % (p.split("::")[-1], fn.id),
                            "atomic update %s happens under a dry_run-dependent branch" % p, fn.where(t))
 
